@@ -626,7 +626,9 @@ impl Model {
             let mut ok = false;
             let mut hit: Option<(usize, u32)> = None;
             for (j, s) in self.clients[ci].subs.iter().enumerate() {
-                if !(s.active && s.replay_retained && s.qos == qos) {
+                // (a subscription that has ended in the meantime may still get the replay
+                // that was already on its way)
+                if !(s.replay_retained && s.qos == qos) {
                     continue;
                 }
                 for m in s.retained_due.iter() {
@@ -637,6 +639,25 @@ impl Model {
                 }
                 if hit.is_some() {
                     break;
+                }
+            }
+            if hit.is_none() {
+                // The router reads the retained set when it first serves the subscription, not
+                // when it consumes the SUBSCRIBE: a message retained in between (same router
+                // turn) is replayed too, in addition to its live copy. The statement does not
+                // say which instant counts, so this is accepted for a subscription that has
+                // not delivered anything live yet.
+                let cur = self.retained.get(topic).cloned();
+                for (j, s) in self.clients[ci].subs.iter().enumerate() {
+                    let fresh = self.clients[ci].frontier.iter().all(|p| p[j] == s.restart);
+                    if s.replay_retained && s.qos == qos && fresh && ref_matches(topic, &s.match_filter) {
+                        if let Some(m) = cur {
+                            if !s.retained_seen.contains(&m) && self.content_is(m, topic, payload) {
+                                hit = Some((j, m));
+                                break;
+                            }
+                        }
+                    }
                 }
             }
             if let Some((j, m)) = hit {
@@ -879,7 +900,12 @@ impl Model {
                         seen.sort();
                         // "provided those fit in its delivery window"
                         let window = if s.qos == 0 { self.max_out.min(10_000) as usize } else { 100 };
-                        if due != seen && due.len() <= window {
+                        // every message owed at subscription time has been replayed, unless it
+                        // was replaced or cleared before the subscription was first served
+                        let missing = due.iter().any(|d| {
+                            !seen.contains(d) && self.retained.get(&self.accepted[*d as usize].topic) == Some(d)
+                        });
+                        if missing && due.len() <= window {
                             out.push((
                                 "retained_replay".into(),
                                 format!(
